@@ -610,6 +610,13 @@ def _judge_create_leaf(ck, create, seg, POS, others, pa, assumed, leaf, n_full, 
                          "the run that is finally emitted is not a maximal one (scores 3, -2, 3 with minScore 4 and threshold 2 come "
                          "back as one segment)", found=("" if tv else "not ") + T.show(c)[:160],
                          required="an empty segment only for an empty run")
+        elif not known_empty and not extra and _short_run_withheld(assumed, POS) is not None:
+            c, node = _short_run_withheld(assumed, POS)
+            ck.violation("C13.12", "AlignmentSegment.create:short-run-withheld", where(create, node),
+                         "create() answers with an empty segment for a run of one or more positions (a test on the number of positions "
+                         "that is not the emptiness test): a single well-matched label can no longer become the candidate, the running "
+                         "maximum read back from the candidate stays 0 for it", found=T.show(c)[:120],
+                         required="an empty segment only for an empty run")
         elif not known_empty and not extra:
             raise AnalysisError(f"{where(create, pa.node)}: AlignmentSegment.create returns without building a segment on a path that is "
                                 f"not recognised as 'the run is empty': {[T.show(c)[:60] for c, _, _ in pa.state.assumptions]}")
@@ -617,3 +624,18 @@ def _judge_create_leaf(ck, create, seg, POS, others, pa, assumed, leaf, n_full, 
             raise AnalysisError(f"{where(create, extra[0][2])}: AlignmentSegment.create returns without building a segment under a "
                                 f"condition that is not understood: {T.show(extra[0][0])[:160]}")
         return n_full, n_empty
+
+
+def _short_run_withheld(assumed, POS):
+    """an assumption `len(POS) < k` (k >= 2) or `len(POS) <= k` (k >= 1) taken as true: (condition, node), else None"""
+    n = T.mk_call("len", [POS])
+    for c, tv, node in assumed:
+        if not tv or c[0] not in ("lt", "le") or c[1][0] != "poly":
+            continue
+        items = dict(T.to_poly(c[1]))
+        if items.get((n,), 0) != 1 or any(k not in ((n,), ()) for k in items):
+            continue
+        k = -items.get((), 0)
+        if (c[0] == "lt" and k >= 2) or (c[0] == "le" and k >= 1):
+            return c, node
+    return None
